@@ -83,11 +83,11 @@ Proof.
   - exact (IH (sorted_tl _ _ S) j a b Ha Hb).
 Qed.
 
-Lemma find_loop_spec es t : sorted es -> forall fuel m n,
+Lemma find_loop_spec av es t : sorted es -> forall fuel m n,
   (0 <= m <= Z.of_nat (cnt (plt t) es))%Z ->
   (Z.of_nat (cnt (ple t) es) - 1 <= n <= Z.of_nat (length es) - 1)%Z ->
   (n - m + 1 < Z.of_nat fuel)%Z ->
-  find_loop fuel es m n t = Ok (find_spec es t).
+  find_loop av fuel es m n t = Ok (find_spec es t).
 Proof.
   intros Hs. pose proof (cnt_lt_le t es) as Clt. pose proof (cnt_le_length (ple t) es) as Cle.
   induction fuel as [|f IH]; intros m n Hm Hn Hf; [lia|].
@@ -132,7 +132,7 @@ Proof.
     + replace (cnt (ple t) es) with O by lia. reflexivity.
 Qed.
 
-Theorem find_tile_spec es t : sorted es -> find_tile es t = Ok (find_spec es t).
+Theorem find_tile_spec av es t : sorted es -> find_tile av es t = Ok (find_spec es t).
 Proof.
   intros Hs. unfold find_tile. apply find_loop_spec; [exact Hs| | |].
   - lia.
@@ -206,8 +206,8 @@ Proof.
   pose proof (write_varint_nonempty v). cbn [length]. lia.
 Qed.
 
-Lemma read_ids_bridge fuel : forall count last l ds r ids,
-  read_n fuel count l = Some (ds, r) -> prefix_sums last ds = Ok ids -> read_ids fuel count last l = Ok (ids, r).
+Lemma read_ids_bridge av fuel : forall count last l ds r ids,
+  read_n fuel count l = Some (ds, r) -> prefix_sums last ds = Ok ids -> read_ids av fuel count last l = Ok (ids, r).
 Proof.
   induction fuel as [|f IH]; intros count last l ds r ids Hr Hp.
   - cbn in *. destruct (count =? 0); [|discriminate]. injection Hr as <- <-. cbn in Hp. injection Hp as <-. reflexivity.
@@ -220,9 +220,9 @@ Proof.
       rewrite (IH _ _ _ _ _ _ E Ep). reflexivity.
 Qed.
 
-Lemma read_offsets_bridge fuel : forall prev lens l tmps r offs,
+Lemma read_offsets_bridge av fuel : forall prev lens l tmps r offs,
   read_n fuel (N.of_nat (length lens)) l = Some (tmps, r) -> dec_offsets prev lens tmps = Ok offs ->
-  read_offsets fuel prev lens l = Ok offs.
+  read_offsets av fuel prev lens l = Ok offs.
 Proof.
   induction fuel as [|f IH]; intros prev lens l tmps r offs Hr Hd.
   - destruct lens as [|len lr]; [cbn in *; injection Hr as <- <-; cbn in Hd; exact Hd|].
@@ -233,14 +233,18 @@ Proof.
     replace (N.of_nat (S (length lr)) - 1) with (N.of_nat (length lr)) in Hr by lia.
     destruct (read_n f (N.of_nat (length lr)) r1) as [[vs r2]|] eqn:E; [|discriminate]. injection Hr as <- <-.
     cbn [dec_offsets] in Hd.
-    destruct (match prev with Some (po, pl) => if tmp =? 0 then if two64 <=? po + pl then Overflow else Ok (po + pl) else Ok (tmp - 1) | None => if tmp =? 0 then Overflow else Ok (tmp - 1) end) as [off| | |]; try discriminate.
+    assert (G : forall off, (match prev with Some (po, pl) => if tmp =? 0 then if two64 <=? po + pl then Overflow else Ok (po + pl) else Ok (tmp - 1) | None => if tmp =? 0 then Overflow else Ok (tmp - 1) end) = Ok off ->
+              (match prev with Some (po, pl) => if tmp =? 0 then if two64 <=? po + pl then ovf av else Ok (po + pl) else Ok (tmp - 1) | None => if tmp =? 0 then ovf av else Ok (tmp - 1) end) = @Ok N off).
+    { intros off. destruct prev as [[po pl]|]; destruct (tmp =? 0); try destruct (two64 <=? po + pl); intros Q; try discriminate; exact Q. }
+    destruct (match prev with Some (po, pl) => if tmp =? 0 then if two64 <=? po + pl then Overflow else Ok (po + pl) else Ok (tmp - 1) | None => if tmp =? 0 then Overflow else Ok (tmp - 1) end) as [off| | |] eqn:Eo; try discriminate.
+    rewrite (G off eq_refl).
     cbn [obind] in *. destruct (dec_offsets (Some (off, len)) lr vs) as [os| | |] eqn:Ed; try discriminate.
     rewrite (IH _ _ _ _ _ _ E Ed). exact Hd.
 Qed.
 
-Theorem deserialize_serialize ch es :
+Theorem deserialize_serialize av ch es :
   Forall entry_ok es -> nondec 0 es -> N.of_nat (length es) <= 10000000000 ->
-  deserialize (serialize_with ch es) = Ok es.
+  deserialize av (serialize_with ch es) = Ok es.
 Proof.
   intros Hok Hnd Hc. unfold deserialize, serialize_with.
   assert (Hc64 : N.of_nat (length es) < two64) by (unfold two64; lia).
@@ -265,7 +269,7 @@ Proof.
   assert (R1 : read_n total (N.of_nat (length es)) (flat_map write_varint (ser_deltas 0 es) ++ flat_map write_varint (map e_run es) ++ flat_map write_varint (map e_len es) ++ flat_map write_varint (ser_offsets None ch es))
                = Some (ser_deltas 0 es, flat_map write_varint (map e_run es) ++ flat_map write_varint (map e_len es) ++ flat_map write_varint (ser_offsets None ch es))).
   { rewrite <- Lds at 1. apply read_n_flat; [exact A1|lia]. }
-  rewrite (read_ids_bridge _ _ _ _ _ _ _ R1 (prefix_sums_deltas es 0 Hnd Hok)). cbn [obind].
+  rewrite (read_ids_bridge av _ _ _ _ _ _ _ R1 (prefix_sums_deltas es 0 Hnd Hok)). cbn [obind].
   replace (N.of_nat (length es)) with (N.of_nat (length (map e_run es))) at 1 by (rewrite map_length; reflexivity).
   rewrite read_n_flat by (try exact A2; rewrite map_length; lia).
   replace (N.of_nat (length es)) with (N.of_nat (length (map e_len es))) at 1 by (rewrite map_length; reflexivity).
@@ -274,7 +278,7 @@ Proof.
   { rewrite <- (app_nil_r (flat_map write_varint (ser_offsets None ch es))). rewrite map_length, <- (Los None ch) at 1.
     apply read_n_flat; [apply A4|rewrite Los; lia]. }
   pose proof (dec_offsets_ser es None ch Hok) as Do. cbn [option_map] in Do.
-  rewrite (read_offsets_bridge _ _ _ _ _ _ _ R4 Do). cbn [obind]. rewrite zip4_maps by exact Hok. reflexivity.
+  rewrite (read_offsets_bridge av _ _ _ _ _ _ _ R4 Do). cbn [obind]. rewrite zip4_maps by exact Hok. reflexivity.
 Qed.
 
 (* ---------- lookups inside runs ---------- *)
@@ -301,12 +305,12 @@ Proof.
   - exact (IH (proj2 S) j a b Ha Hb).
 Qed.
 
-Theorem find_in_run es e t : runs_ok es -> In e es -> e_id e <= t < e_id e + N.max (e_run e) 1 \/ (e_run e = 0 /\ e_id e <= t /\ forall e', In e' es -> e_id e < e_id e' -> t < e_id e') ->
+Theorem find_in_run av es e t : runs_ok es -> In e es -> e_id e <= t < e_id e + N.max (e_run e) 1 \/ (e_run e = 0 /\ e_id e <= t /\ forall e', In e' es -> e_id e < e_id e' -> t < e_id e') ->
   (0 < e_run e -> t < e_id e + e_run e) ->
-  find_tile es t = Ok (Some e).
+  find_tile av es t = Ok (Some e).
 Proof.
   intros Hr Hin Hcov Hrun. pose proof (runs_ok_sorted es Hr) as Hs.
-  rewrite (find_tile_spec es t Hs). unfold find_spec. rewrite last_le_cnt.
+  rewrite (find_tile_spec av es t Hs). unfold find_spec. rewrite last_le_cnt.
   destruct (In_nth_error es e Hin) as (i & Hi).
   pose proof (cnt_prefix (ple t) es Hs (ple_mono t) _ _ Hi) as Ple.
   assert (Hle : e_id e <= t) by (destruct Hcov as [H|H]; lia).
